@@ -135,10 +135,10 @@ func init() {
 			return "(" + strings.Join(parts, " ") + ")"
 		}
 		special := &vf.Family{
-			Name:   "special-forms",
-			Bounds: fmt.Sprintf("%d special-form heads x every operand tuple of length 0..3 (quick) / 0..4 (thorough) over %d operand shapes (atoms, bound/unbound symbols, &, malformed binding vectors and parameter lists, malformed catch/finally/unquote forms); function/macro results are then applied to 0..2 arguments", len(c04Heads), nOps),
-			Setup:  setup,
-			N:      func(t string) int64 { tier = t; return int64(len(c04Heads)) * seqSpace{nOps, sfLen()}.size() },
+			Name:     "special-forms",
+			Bounds:   fmt.Sprintf("%d special-form heads x every operand tuple of length 0..3 (quick) / 0..4 (thorough) over %d operand shapes (atoms, bound/unbound symbols, &, malformed binding vectors and parameter lists, malformed catch/finally/unquote forms); function/macro results are then applied to 0..2 arguments", len(c04Heads), nOps),
+			Setup:    setup,
+			N:        func(t string) int64 { tier = t; return int64(len(c04Heads)) * seqSpace{nOps, sfLen()}.size() },
 			Describe: sfText,
 			Run: func(i int64, r *vf.Rec) {
 				h, ops := sfCase(i)
@@ -270,9 +270,9 @@ func init() {
 		}
 		return &vf.Check{
 			ID: "C04", Level: "model_checking",
-			Rule: "every AST of the bounded spaces is evaluated by the real EVAL under recover in a fresh scope with a poll-bounded context; a Go panic crossing EVAL is a violation (signature = panic site); every case that returned an error is re-run inside (try CASE (catch e :caught)) and must yield :caught; non-trivial = the case returned an error",
+			Rule:        "every AST of the bounded spaces is evaluated by the real EVAL under recover in a fresh scope with a poll-bounded context; a Go panic crossing EVAL is a violation (signature = panic site); every case that returned an error is re-run inside (try CASE (catch e :caught)) and must yield :caught; non-trivial = the case returned an error",
 			Assumptions: []string{"acyclic ASTs; (panic nil) excluded (Go runtime panicnil semantics); run-fn-for excluded (runs for seconds by design)", "worker stdin is /dev/null, stdout discarded"},
-			Families: []*vf.Family{special, builtins, nests, fcalls},
+			Families:    []*vf.Family{special, builtins, nests, fcalls},
 		}
 	})
 }
